@@ -22,3 +22,33 @@ Proof. exact next_value_size_in_bounds. Qed.
 Theorem C18_size_terminates :
   forall (inp : bytes) (dl : nat), next_value_size inp dl <> SzOutOfFuel.
 Proof. exact next_value_size_terminates. Qed.
+
+(* The verdict is the same for slice and reader input at EVERY depth and for
+   every nesting shape - for every byte string at all. *)
+From XtModel Require Import MsgpackAgreeProofs.
+
+Theorem C18_same_verdict_slice_reader :
+  forall (utf8_valid : bytes -> bool) (inp : bytes),
+    mm_ok (transcode_slice utf8_valid inp) = mm_ok (transcode_reader utf8_valid inp).
+Proof. intros u inp. exact (proj1 (proj2 (slice_reader_agree u inp))). Qed.
+
+(* Neither document loop panics or exhausts its fuel, whatever the input declares. *)
+Theorem C18_loops_total :
+  forall (utf8_valid : bytes -> bool) (inp : bytes),
+    snd (transcode_slice utf8_valid inp) <> MPanic /\ snd (transcode_slice utf8_valid inp) <> MOutOfFuel /\
+    snd (transcode_reader utf8_valid inp) <> MOutOfFuel.
+Proof. exact loops_total. Qed.
+
+(* The limit itself: 1023 collections around a scalar translate, 1024 do not,
+   in both modes, for arrays, for maps nested in value position and for maps
+   nested in key position. *)
+Definition nest_arrays (n : nat) : bytes := repeat 145%N n ++ [192%N].
+Definition nest_maps (n : nat) : bytes := concat (repeat [129; 161; 107]%N n) ++ [192%N].
+Definition nest_keys (n : nat) : bytes := repeat 129%N n ++ [192%N] ++ repeat 1%N n.
+
+Example C18_limit_is_1023 :
+  let ok inp := (mm_ok (transcode_slice (fun _ => true) inp), mm_ok (transcode_reader (fun _ => true) inp)) in
+  ok (nest_arrays 1023) = (true, true) /\ ok (nest_arrays 1024) = (false, false) /\
+  ok (nest_maps 1023) = (true, true) /\ ok (nest_maps 1024) = (false, false) /\
+  ok (nest_keys 1023) = (true, true) /\ ok (nest_keys 1024) = (false, false).
+Proof. vm_compute. repeat split. Qed.
